@@ -167,10 +167,16 @@ def localityOf (nodes : List Node) (p : Pod) : String :=
   | none => ""
   | some n => if n.region = "" ∧ n.zone = "" then "" else n.region ++ "/" ++ n.zone ++ "/"
 
+/-- `strings.Split(s, "/")` on characters (structural, so that the kernel can evaluate it) -/
+def splitSlash : List Char → List Char → List (List Char)
+  | cur, [] => [cur.reverse]
+  | cur, c :: r => if c = '/' then cur.reverse :: splitSlash [] r else splitSlash (c :: cur) r
+
+/-- `SplitLocalityLabel`: region and zone -/
 def splitLocality (loc : String) : String × String :=
-  match loc.splitOn "/" with
-  | [r] => (r, "")
-  | r :: z :: _ => (r, z)
+  match splitSlash [] loc.toList with
+  | [r] => (String.ofList r, "")
+  | r :: z :: _ => (String.ofList r, String.ofList z)
   | [] => ("", "")
 
 /-- `labelutil.AugmentLabels` followed by the network label assignment of `buildIstioEndpoint`
@@ -303,10 +309,11 @@ inductive Ev
   | svcAdd (s : Svc) | svcUpd (old new : Svc) | svcDel (s : Svc)
   | podAdd (p : Pod) | podUpd (old new : Pod) | podDel (p : Pod)
   | slAdd (s : Slice) | slUpd (old new : Slice) | slDel (s : Slice)
-  | replay (ns name : String)
+  | replay (key : String)
   deriving DecidableEq, Repr, Inhabited
 
-structure State where
+/-- the informer stores and the controller's caches: everything the handlers read or write -/
+structure Ctl where
   -- informer stores
   svcs : List Svc := []
   slices : List Slice := []
@@ -319,9 +326,6 @@ structure State where
   ipBy : List (String × String) := []              -- ipByPods
   resync : List (String × List String) := []       -- needResync
   index : Index := []
-  -- the controller's queue
-  queue : List Ev := []
-  held : Bool := false
   deriving Repr, Inhabited
 
 def findSvc (l : List Svc) (ns name : String) : Option Svc := l.find? (fun s => s.ns = ns ∧ s.name = name)
@@ -330,12 +334,12 @@ def findSlice (l : List Slice) (ns name : String) : Option Slice := l.find? (fun
 /-! ### EndpointSlice handler -/
 
 /-- `pushEDS` for the single hostname of a slice -/
-def pushEDS (s : State) (host ns : String) : State :=
+def pushEDS (s : Ctl) (host ns : String) : Ctl :=
   { s with index := idxUpdate s.index host ns (cacheGet s.cache host) }
 
 /-- `updateEndpointCacheForSlice(host, sl)`: rebuild the cache entry of `sl` under `host` from the
     current stores, park the addresses whose pod is unknown -/
-def rebuildSlice (s : State) (host : String) (sl : Slice) : State :=
+def rebuildSlice (s : Ctl) (host : String) (sl : Slice) : Ctl :=
   match buildSlice s.pods s.nodes s.byIP (alookup host s.smap) sl with
   | none => s
   | some eps =>
@@ -343,21 +347,21 @@ def rebuildSlice (s : State) (host : String) (sl : Slice) : State :=
              resync := (parkedAddrs s.pods sl).foldl (fun m a => setInsert m a sl.key) s.resync }
 
 /-- `updateEndpointSlice` -/
-def updateSliceCache (s : State) (sl : Slice) : State := rebuildSlice s sl.host sl
+def updateSliceCache (s : Ctl) (sl : Slice) : Ctl := rebuildSlice s sl.host sl
 
 def endpointsDeleted (m : List (String × List String)) (key : String) (addrs : List String) :
     List (String × List String) :=
   addrs.foldl (fun m a => setDelete m a key) m
 
 /-- `endpointSliceController.onEventInternal` for add / update / replay (`old` only for updates) -/
-def sliceUpsert (s : State) (old : Option Slice) (sl : Slice) : State :=
+def sliceUpsert (s : Ctl) (old : Option Slice) (sl : Slice) : Ctl :=
   let s := match old with
     | none => s
     | some o => { s with resync := endpointsDeleted s.resync sl.key (o.allAddrs.filter (fun a => !sl.allAddrs.contains a)) }
   pushEDS (updateSliceCache s sl) sl.host sl.ns
 
 /-- `onEventInternal` for delete: `deleteEndpointSlice` then `pushEDS` -/
-def sliceDelete (s : State) (sl : Slice) : State :=
+def sliceDelete (s : Ctl) (sl : Slice) : Ctl :=
   let s := { s with resync := endpointsDeleted s.resync sl.key sl.allAddrs,
                     cache := cacheDelete s.cache sl.host sl.name }
   pushEDS s sl.host sl.ns
@@ -365,29 +369,29 @@ def sliceDelete (s : State) (sl : Slice) : State :=
 /-! ### Service handler -/
 
 /-- the slices `buildIstioEndpointsWithService` lists for a service (informer store, by label) -/
-def svcSlices (s : State) (svc : Svc) : List Slice :=
+def svcSlices (s : Ctl) (svc : Svc) : List Slice :=
   s.slices.filter (fun sl => sl.ns = svc.ns ∧ sl.svc = svc.name)
 
 /-- `buildIstioEndpointsWithService(updateCache = false)`: nothing when the store has no slice of
     the service, else whatever the cache holds for the hostname -/
-def cachedEndpoints (s : State) (svc : Svc) : List IEp :=
+def cachedEndpoints (s : Ctl) (svc : Svc) : List IEp :=
   if (svcSlices s svc).isEmpty then [] else cacheGet s.cache svc.host
 
 /-- `if len(endpoints) > 0 { EDSCacheUpdate(...) }` -/
-def refreshIndex (s : State) (svc : Svc) : State :=
+def refreshIndex (s : Ctl) (svc : Svc) : Ctl :=
   let eps := cachedEndpoints s svc
   if eps.isEmpty then s else { s with index := idxUpdate s.index svc.host svc.ns eps }
 
 /-- `buildIstioEndpointsWithService(updateCache = true)`: rebuild every listed slice -/
-def rebuildService (s : State) (svc : Svc) : State :=
+def rebuildService (s : Ctl) (svc : Svc) : Ctl :=
   (svcSlices s svc).foldl (fun s sl => rebuildSlice s svc.host sl) s
 
 /-- `addOrUpdateService` (updateEDSCache = false, EnableK8SServiceSelectWorkloadEntries = true) -/
-def serviceUpsert (s : State) (svc : Svc) : State :=
+def serviceUpsert (s : Ctl) (svc : Svc) : Ctl :=
   refreshIndex { s with smap := aset svc.host svc s.smap } svc
 
 /-- `deleteService` -/
-def serviceDelete (s : State) (svc : Svc) : State :=
+def serviceDelete (s : Ctl) (svc : Svc) : Ctl :=
   { s with smap := aerase svc.host s.smap, index := idxDelete s.index svc.host }
 
 /-! ### Pod handler -/
@@ -400,9 +404,9 @@ def selMatch (sel podLabels : Labels) : Bool :=
 
 /-- `recomputeServiceForPod`: services of the pod's namespace whose selector matches; stops at the
     first one that is not in `servicesMap`. -/
-def recompute (s : State) (p : Pod) : State :=
+def recompute (s : Ctl) (p : Pod) : Ctl :=
   let svcs := s.svcs.filter (fun sv => sv.ns = p.ns ∧ selMatch sv.sel p.labels)
-  (svcs.foldl (fun (acc : State × Bool) sv =>
+  (svcs.foldl (fun (acc : Ctl × Bool) sv =>
     if acc.2 then acc
     else match alookup sv.host acc.1.smap with
       | none => (acc.1, true)
@@ -412,38 +416,44 @@ def recompute (s : State) (p : Pod) : State :=
 def podShouldBeIn (p : Pod) : Bool := !(p.phase = "F" ∨ p.phase = "S") && p.ip ≠ "" && !p.deleting
 
 /-- `queueWaitingEndpointEvents` / the needResync part of `addPod`: replay every slice waiting on `ip` -/
-def takeWaiting (s : State) (ip : String) : State × List Ev :=
+def takeWaiting (s : Ctl) (ip : String) : Ctl × List Ev :=
   match alookup ip s.resync with
   | none => (s, [])
   | some keys =>
     ({ s with resync := aerase ip s.resync },
-     keys.map (fun k => match k.splitOn "/" with
-       | [ns, name] => Ev.replay ns name
-       | _ => Ev.replay "" k))
+     keys.map Ev.replay)
 
 /-- `deleteIP` -/
-def deleteIP (s : State) (ip key : String) : State × Bool :=
+def deleteIP (s : Ctl) (ip key : String) : Ctl × Bool :=
   if setContains s.byIP ip key then
     ({ s with byIP := setDelete s.byIP ip key, ipBy := aerase key s.ipBy }, true)
   else (s, false)
 
+/-- the pod cache part of `addPod`: drop the key from its previous IP, record it under `ip` -/
+def cachePod (s : Ctl) (key ip : String) : Ctl :=
+  let byIP := match alookup key s.ipBy with
+    | some cur => setDelete s.byIP cur key
+    | none => s.byIP
+  { s with byIP := setInsert byIP ip key, ipBy := aset key ip s.ipBy }
+
 /-- `addPod` -/
-def addPod (s : State) (p : Pod) (ip : String) (labelUpdated : Bool) : State × List Ev :=
+def addPod (s : Ctl) (p : Pod) (ip : String) (labelUpdated : Bool) : Ctl × List Ev :=
   if setContains s.byIP ip p.key then
     (if labelUpdated then recompute s p else s, [])
-  else
-    let byIP := match alookup p.key s.ipBy with
-      | some cur => setDelete s.byIP cur p.key
-      | none => s.byIP
-    let s := { s with byIP := setInsert byIP ip p.key, ipBy := aset p.key ip s.ipBy }
-    takeWaiting s ip
+  else takeWaiting (cachePod s p.key ip) ip
+
+/-- `labelFilter` (no ambient annotation in the universe): the label maps differ -/
+def labelsChanged (old : Option Pod) (p : Pod) : Bool :=
+  match old with
+  | some o => decide (normLabels o.labels ≠ normLabels p.labels)
+  | none => false
 
 inductive PodEvKind | add | upd | del
   deriving DecidableEq, Repr
 
 /-- `PodCache.onEvent`; `p` is the latest pod of the store for add/update, the event's object for
     delete; `old` is the event's old object (label comparison). -/
-def podEvent (s : State) (old : Option Pod) (p : Pod) (k : PodEvKind) : State × List Ev :=
+def podEvent (s : Ctl) (old : Option Pod) (p : Pod) (k : PodEvKind) : Ctl × List Ev :=
   let ip := if p.ip = "" then (alookup p.key s.ipBy).getD "" else p.ip
   if ip = "" then (s, [])
   else
@@ -455,17 +465,15 @@ def podEvent (s : State) (old : Option Pod) (p : Pod) (k : PodEvKind) : State ×
     | .upd =>
       if !ok then ((deleteIP s ip p.key).1, w.2)
       else
-        let changed := match old with
-          | some o => decide (normLabels o.labels ≠ normLabels p.labels)
-          | none => false
-        let r := addPod s p ip changed
+        let r := addPod s p ip (labelsChanged old p)
         (r.1, w.2 ++ r.2)
     | .del => ((deleteIP s ip p.key).1, w.2)
 
 /-! ### the queue -/
 
-/-- handle one event against the current stores; returns the replays it queued -/
-def handle (s : State) : Ev → State × List Ev
+/-- handle one event against the current stores (`registerHandlers`: add/update handlers re-read the
+    latest object and skip when it is gone); returns the replays it queued -/
+def handle (s : Ctl) : Ev → Ctl × List Ev
   | .svcAdd v | .svcUpd _ v =>
     match findSvc s.svcs v.ns v.name with
     | none => (s, [])
@@ -489,23 +497,32 @@ def handle (s : State) : Ev → State × List Ev
     | none => (s, [])
     | some cur => (sliceUpsert s (some o) cur, [])
   | .slDel v => (sliceDelete s v, [])
-  | .replay ns name =>
-    match findSlice s.slices ns name with
+  | .replay key =>
+    match s.slices.find? (fun sl => sl.key = key) with
     | none => (s, [])
     | some cur => (sliceUpsert s none cur, [])
 
 /-- run a list of events in order, collecting the replays they queue behind them -/
-def runEvents (s : State) : List Ev → State × List Ev
+def runEvents (s : Ctl) : List Ev → Ctl × List Ev
   | [] => (s, [])
   | e :: r =>
     let h := handle s e
     let t := runEvents h.1 r
     (t.1, h.2 ++ t.2)
 
-/-- drain the queue: the waiting events, then the replays they queued (a replay queues nothing) -/
-def drain (s : State) : State :=
-  let a := runEvents { s with queue := [] } s.queue
+/-- the waiting events, then the replays they queued (a replay queues nothing) -/
+def runAll (s : Ctl) (q : List Ev) : Ctl :=
+  let a := runEvents s q
   (runEvents a.1 a.2).1
+
+/-- controller plus its event queue; `held` = the worker is blocked, the stores run ahead -/
+structure State where
+  c : Ctl := {}
+  queue : List Ev := []
+  held : Bool := false
+  deriving Repr, Inhabited
+
+def drain (s : State) : State := { s with c := runAll s.c s.queue, queue := [] }
 
 /-! ### writes (what the informers deliver) -/
 
@@ -513,47 +530,50 @@ def upsertBy {α : Type} (same : α → Bool) (v : α) : List α → List α
   | [] => [v]
   | x :: r => if same x then v :: r else x :: upsertBy same v r
 
-def enqueue (s : State) (e : Ev) : State :=
-  let s := { s with queue := s.queue ++ [e] }
+/-- store update done, event appended; handled at once unless the queue is held -/
+def enqueue (s : State) (c : Ctl) (e : Ev) : State :=
+  let s := { s with c := c, queue := s.queue ++ [e] }
   if s.held then s else drain s
 
 def writeSvc (s : State) (v : Svc) : State :=
-  let e := match findSvc s.svcs v.ns v.name with
+  let e := match findSvc s.c.svcs v.ns v.name with
     | none => Ev.svcAdd v
     | some o => Ev.svcUpd o v
-  enqueue { s with svcs := upsertBy (fun x => x.ns = v.ns ∧ x.name = v.name) v s.svcs } e
+  enqueue s { s.c with svcs := upsertBy (fun x => x.ns = v.ns ∧ x.name = v.name) v s.c.svcs } e
 
 def writeSlice (s : State) (v : Slice) : State :=
-  let e := match findSlice s.slices v.ns v.name with
+  let e := match findSlice s.c.slices v.ns v.name with
     | none => Ev.slAdd v
     | some o => Ev.slUpd o v
-  enqueue { s with slices := upsertBy (fun x => x.ns = v.ns ∧ x.name = v.name) v s.slices } e
+  enqueue s { s.c with slices := upsertBy (fun x => x.ns = v.ns ∧ x.name = v.name) v s.c.slices } e
 
 def writePod (s : State) (v : Pod) : State :=
-  let e := match findPod s.pods v.ns v.name with
+  let e := match findPod s.c.pods v.ns v.name with
     | none => Ev.podAdd v
     | some o => Ev.podUpd o v
-  enqueue { s with pods := upsertBy (fun x => x.ns = v.ns ∧ x.name = v.name) v s.pods } e
+  enqueue s { s.c with pods := upsertBy (fun x => x.ns = v.ns ∧ x.name = v.name) v s.c.pods } e
 
 /-- Node events do not touch the observed caches (`onNodeEvent` only maintains node-port
     gateway data); the node store is read when endpoints are built. -/
 def writeNode (s : State) (v : Node) : State :=
-  { s with nodes := upsertBy (fun x => x.name = v.name) v s.nodes }
+  { s with c := { s.c with nodes := upsertBy (fun x => x.name = v.name) v s.c.nodes } }
 
 def delSvc (s : State) (ns name : String) : Option State :=
-  (findSvc s.svcs ns name).map fun o =>
-    enqueue { s with svcs := s.svcs.filter (fun x => !(x.ns = ns ∧ x.name = name)) } (.svcDel o)
+  (findSvc s.c.svcs ns name).map fun o =>
+    enqueue s { s.c with svcs := s.c.svcs.filter (fun x => !(x.ns = ns ∧ x.name = name)) } (.svcDel o)
 
 def delSlice (s : State) (ns name : String) : Option State :=
-  (findSlice s.slices ns name).map fun o =>
-    enqueue { s with slices := s.slices.filter (fun x => !(x.ns = ns ∧ x.name = name)) } (.slDel o)
+  (findSlice s.c.slices ns name).map fun o =>
+    enqueue s { s.c with slices := s.c.slices.filter (fun x => !(x.ns = ns ∧ x.name = name)) } (.slDel o)
 
 def delPod (s : State) (ns name : String) : Option State :=
-  (findPod s.pods ns name).map fun o =>
-    enqueue { s with pods := s.pods.filter (fun x => !(x.ns = ns ∧ x.name = name)) } (.podDel o)
+  (findPod s.c.pods ns name).map fun o =>
+    enqueue s { s.c with pods := s.c.pods.filter (fun x => !(x.ns = ns ∧ x.name = name)) } (.podDel o)
 
 def delNode (s : State) (name : String) : Option State :=
-  if s.nodes.any (·.name = name) then some { s with nodes := s.nodes.filter (·.name ≠ name) } else none
+  if s.c.nodes.any (·.name = name) then
+    some { s with c := { s.c with nodes := s.c.nodes.filter (·.name ≠ name) } }
+  else none
 
 def hold (s : State) : State := { s with held := true }
 def release (s : State) : State := drain { s with held := false }
@@ -593,16 +613,16 @@ structure HostView where
   svc : Svc
   eps : List IEp
   sas : List String
-  deriving Repr
+  deriving DecidableEq, Repr
 
-def hostView (s : State) (host : String) : Option HostView :=
+def hostView (s : Ctl) (host : String) : Option HostView :=
   (alookup host s.smap).map fun sv =>
     match alookup host s.index with
     | none => { svc := sv, eps := [], sas := [] }
     | some e => { svc := sv, eps := e.eps.getD [], sas := e.sas }
 
 /-- the final objects of a state, as the writes that create them, kinds in the given order -/
-def finalOps (s : State) (order : List String) : List Op :=
+def finalOps (s : Ctl) (order : List String) : List Op :=
   order.flatMap fun k =>
     if k = "node" then s.nodes.map Op.node
     else if k = "svc" then s.svcs.map Op.svc
